@@ -44,6 +44,7 @@ class Prog:
         p = sp.parse(pat.pattern, pat.flags)
         self.ngroups = p.state.groups
         self.groupindex = dict(p.state.groupdict)
+        self.state = p.state
         self.emit_seq(list(p), self.ic)
         self.ins.append(("MATCH",))
 
@@ -52,8 +53,76 @@ class Prog:
         return len(self.ins) - 1
 
     def emit_seq(self, items, ic):
-        for op, arg in items:
+        for op, arg in self.expand_backrefs(list(items), ic):
             self.emit(op, arg, ic)
+
+    # -- back-references to a group that matches exactly one character of a small set -------------------
+    # `(['"])X\1` is rewritten to `(')X'|(")X"`: at a given position only one alternative can match its first
+    # character, so CPython's search order is unchanged and the (pc, pos) memoisation stays exact.
+    @staticmethod
+    def _single_char_set(sub):
+        if len(sub) != 1:
+            return None
+        op, arg = sub[0]
+        if str(op) == "LITERAL":
+            return [arg]
+        if str(op) == "IN":
+            out = []
+            for o, a in arg:
+                if str(o) == "LITERAL":
+                    out.append(a)
+                elif str(o) == "RANGE" and a[1] - a[0] < 8:
+                    out += list(range(a[0], a[1] + 1))
+                else:
+                    return None
+            return out if 0 < len(out) <= 8 else None
+        return None
+
+    def _has_ref(self, items, g):
+        for op, arg in items:
+            n = str(op)
+            if n == "GROUPREF" and arg == g:
+                return True
+            if n == "SUBPATTERN" and self._has_ref(arg[3], g):
+                return True
+            if n in ("MAX_REPEAT", "MIN_REPEAT") and self._has_ref(arg[2], g):
+                return True
+            if n == "BRANCH" and any(self._has_ref(a, g) for a in arg[1]):
+                return True
+            if n in ("ASSERT", "ASSERT_NOT") and self._has_ref(arg[1], g):
+                return True
+        return False
+
+    def _subst_ref(self, items, g, c):
+        out = []
+        for op, arg in items:
+            n = str(op)
+            if n == "GROUPREF" and arg == g:
+                out.append((sc.LITERAL, c))
+            elif n == "SUBPATTERN":
+                out.append((op, (arg[0], arg[1], arg[2], sp.SubPattern(self.state, self._subst_ref(arg[3], g, c)))))
+            elif n in ("MAX_REPEAT", "MIN_REPEAT"):
+                out.append((op, (arg[0], arg[1], sp.SubPattern(self.state, self._subst_ref(arg[2], g, c)))))
+            elif n == "BRANCH":
+                out.append((op, (arg[0], [sp.SubPattern(self.state, self._subst_ref(a, g, c)) for a in arg[1]])))
+            elif n in ("ASSERT", "ASSERT_NOT"):
+                out.append((op, (arg[0], sp.SubPattern(self.state, self._subst_ref(arg[1], g, c)))))
+            else:
+                out.append((op, arg))
+        return out
+
+    def expand_backrefs(self, items, ic):
+        for idx, (op, arg) in enumerate(items):
+            if str(op) == "SUBPATTERN" and arg[0] is not None and self._has_ref(items[idx + 1:], arg[0]):
+                chars = self._single_char_set(arg[3])
+                if not chars or (ic and any(chr(c).isalpha() for c in chars)):
+                    raise Unsupported("back-reference to a group that is not a single character of a small set")
+                alts = []
+                for c in chars:
+                    head = (op, (arg[0], arg[1], arg[2], sp.SubPattern(self.state, [(sc.LITERAL, c)])))
+                    alts.append(sp.SubPattern(self.state, [head] + self._subst_ref(items[idx + 1:], arg[0], c)))
+                return items[:idx] + [(sc.BRANCH, (None, alts))]
+        return items
 
     def emit(self, op, arg, ic):
         n = str(op)
